@@ -26,6 +26,7 @@ class Gen:
         self.invalid = invalid
         self.avoid = set(avoid)     # op kinds / features not to generate (used by the clean stream)
         self.cnt = 0
+        self.bases = []      # ids b such that some element already carries a derived id b-ns / b-int / b-int1
         self.snap = {'nodes': [], 'edges': []}
         self.g = O.G(self.snap)
 
@@ -39,6 +40,11 @@ class Gen:
 
     def new_id(self, p='x'):
         """caller-supplied id (always for substrate, sometimes for experiment), None = library-generated"""
+        if self.rng.random() < 0.04:
+            # an id that a later add_facility / add_switch with node_id=b will derive: a LATER step of that call fails
+            b = self.fresh('q')
+            self.bases.append(b)
+            return b + self.rng.choice(['-ns', '-int', '-int0', '-int1', '-int2'])
         if self.flavour == 'sub':
             if self.bad():
                 return self.rng.choice([None, self.some_id()])
@@ -160,7 +166,10 @@ class Gen:
             ifn = [self.fresh('fp') for _ in range(k)]
             if 'dup_fac_if' not in self.avoid and k > 1 and self.rng.random() < 0.15:
                 ifn[-1] = ifn[0]
-        return ['add_facility', name, self.new_id('f'), self.rng.choice(SITES), ifn]
+        fid = self.new_id('f')
+        if self.bases and self.rng.random() < 0.4:
+            fid = self.bases.pop()
+        return ['add_facility', name, fid, self.rng.choice(SITES), ifn]
 
     def op_remove_facility(self):
         names = [n[3] for n in self.g.nodes if n[1] == O.NODE and (n[2] == 'Facility' or self.bad())]
@@ -169,7 +178,10 @@ class Gen:
         return ['remove_facility', self.rng.choice(names)]
 
     def op_add_switch(self):
-        return ['add_switch', self.new_name('sw', O.NODE), self.new_id('w'), self.rng.choice(SITES),
+        wid = self.new_id('w')
+        if self.bases and self.rng.random() < 0.4:
+            wid = self.bases.pop()
+        return ['add_switch', self.new_name('sw', O.NODE), wid, self.rng.choice(SITES),
                 self.rng.choice([0, 1, 2, 2, 3])]
 
     def op_remove_switch(self):
